@@ -4,9 +4,15 @@ import vp_coq, options_cases as oc, subprocess, tempfile, shutil
 
 
 def gen(ctx, n):
-    kinds = ["legal", "alias", "malformed", "short", "malformed", "alias"]
-    cs = [oc.gen_case(ctx, "k%d" % i, kinds[i % len(kinds)]) for i in range(n)]
+    kinds = ["legal", "alias", "malformed", "short", "malformed", "alias", "alias2"]
+    cs = [oc.gen_alias2(ctx, "k%d" % i) if kinds[i % len(kinds)] == "alias2" else oc.gen_case(ctx, "k%d" % i, kinds[i % len(kinds)])
+          for i in range(n)]
     cs += boundary(ctx)
+    # every scenario of the alias theorems once per run, whatever the seed
+    cs += [oc.gen_alias2(ctx, "as%d" % k, sc) for k, sc in enumerate(oc.ALIAS_SCENARIOS)]
+    # legacy names act exactly like the current names: every case with a legacy name in a file gets a twin with the
+    # current names in their place (the two outcomes are judged by the statement of alias_equivalence)
+    cs += [oc.alias_twin(c) for c in cs if oc.has_legacy(c)]
     for c in cs:
         for t in c.tags:
             ctx.count(t)
@@ -90,7 +96,10 @@ def run(ctx, cases=None):
                 "values; malformed stream: unknown names, aliases on the command line, `config` in a file, bad numbers, repeated scalars, "
                 "ambiguous abbreviations, missing file, information switches, stray words, negative values for unsigned options; "
                 "boundary stream: every current option alone on the command line / alone in the file, vector option in both sources, "
-                "every legacy and ignored name on the command line; the defaults documented by --help against the getters of `inovesa`. "
+                "every legacy and ignored name on the command line; the defaults documented by --help against the getters of `inovesa`; "
+                "alias stream: legacy and current name in one file (either order, with and without the command line), a legacy line that the "
+                "command line overrides (legal / malformed), a malformed or repeated legacy line; every case with a legacy name in a file is run "
+                "a second time with the current names in their place and the two outcomes are judged by the statement of alias_equivalence. "
                 "Compared: status and every bound member (through its getter) model vs implementation, saved file, reload. "
                 "Non-trivial: at least one option given.")
     coq = vp_coq.full_check("C20", ctx, fams=("options",))
@@ -100,6 +109,7 @@ def run(ctx, cases=None):
     if coq["extract_ok"]:
         cs = cases or gen(ctx, 600 if ctx.quick() else 12000)
         res = oc.run_cases(ctx, cs, tg)
+        byid = {c.cid: c for c in cs}
         for c in cs:
             r = res[c.cid]
             if not hasattr(c, "raw_argv"):
@@ -107,6 +117,12 @@ def run(ctx, cases=None):
                 if d:
                     dis.append(dict(case=c.replay(), detail=d[:4], sig=dict(kind="options", stage="correspondence")))
                 oc.oracle_c20(ctx, c, r)
+                if c.cid + "t" in res and "twin" not in c.tags:
+                    t = byid[c.cid + "t"]
+                    _, md = oc.oracle_alias_twin(ctx, c, r, t, res[t.cid])
+                    if md:
+                        dis.append(dict(case=c.replay(), detail=["alias_equivalence does not hold on the extracted model's output: " + md],
+                                        sig=dict(kind="options", stage="correspondence")))
             ctx.evaluations += 1
         ctx.sample(cs[0].replay())
         ctx.sample(cs[1].replay())
